@@ -85,6 +85,7 @@ def run_program(prog, prefix=(), kinds=("P", "T", "K"), kill_code=-9, track_stat
     gc.disable()
     w = W.build_world(S, cpu_count=pool.get("cpu_count", 2), psutil=pool.get("psutil", True))
     S.world = w
+    w.werror = bool(pool.get("werror"))
     if pool.get("parent_depth"):
         w.pe._CURRENT_DEPTH = pool["parent_depth"]
     rec = Record()
@@ -329,6 +330,21 @@ def do_op(ctx, op, entry):
                     except BaseException as ex:
                         rec.notes.append(("callback-shutdown-raised", type(ex).__name__))
                     del e2
+            elif op[2] == "reuse":
+                # the callback (manager thread) asks for the reusable executor again
+                def cb(fut):
+                    rec.notes.append(("callback", op[1]))
+                    kw = dict(op[3])
+                    kw.setdefault("timeout", pool.get("timeout"))
+                    try:
+                        e2 = w.re.get_reusable_executor(**kw)
+                        rec.notes.append(("callback-reuse-returned", op[1], e2._max_workers))
+                        ctx["e"] = e2
+                        del e2
+                    except (SimAbort, SimKilled):
+                        raise
+                    except BaseException as ex:
+                        rec.notes.append(("callback-reuse-raised", type(ex).__name__))
             elif op[2] == "add_callback":
                 # a callback that registers another callback on the (finished) future
                 def cb(fut):
